@@ -4582,8 +4582,8 @@ gj0BCallNotImpl(Foam foam)
 
 struct gjBVal_info gjBValNotImpl = { 0, GJ_NotImpl };
 struct gjBVal_info gjBValInfoTable[] = {
-	{FOAM_BVal_BoolFalse, GJ_Keyword,  0, "true"},
-	{FOAM_BVal_BoolTrue,  GJ_Keyword,  0, "false"},
+	{FOAM_BVal_BoolFalse, GJ_Keyword,  0, "false"},
+	{FOAM_BVal_BoolTrue,  GJ_Keyword,  0, "true"},
 
 	{FOAM_BVal_BoolNot, GJ_Op, JCO_OP_Not },
 	{FOAM_BVal_BoolAnd, GJ_Op, JCO_OP_And },
@@ -4612,10 +4612,10 @@ struct gjBVal_info gjBValInfoTable[] = {
 	{FOAM_BVal_CharNum, GJ_Cast, 0, "char"},
 
 	{FOAM_BVal_SFlo0,   GJ_LitFloat, 0,"0.0f"},
-	{FOAM_BVal_SFlo1,   GJ_LitFloat, 0,"0.0f"},
-	{FOAM_BVal_SFloMin, GJ_NegConst, 0, "Float", "MAX_VALUE"},
+	{FOAM_BVal_SFlo1,   GJ_LitFloat, 0,"1.0f"},
+	{FOAM_BVal_SFloMin, GJ_Const,    0, "Float", "MIN_NORMAL"},
 	{FOAM_BVal_SFloMax, GJ_Const,     0, "Float", "MAX_VALUE"},
-	{FOAM_BVal_SFloEpsilon, GJ_Const, 0,"Float",  "MIN_VALUE"},
+	{FOAM_BVal_SFloEpsilon, GJ_LitFloat, 0,"1.1920929E-7f"},
 	{FOAM_BVal_SFloIsZero,   GJ_Op, JCO_OP_Equals, "0.0"},
 	{FOAM_BVal_SFloIsNeg,    GJ_Op, JCO_OP_LT,     "0.0"},
 	{FOAM_BVal_SFloIsPos,    GJ_Op, JCO_OP_GT,     "0.0"},
@@ -4639,11 +4639,11 @@ struct gjBVal_info gjBValInfoTable[] = {
 	{FOAM_BVal_SFloDissemble, GJ_Apply, 0, "foamj.Math", "sfloDissemble"},
 	{FOAM_BVal_SFloAssemble,  GJ_Apply, 0, "foamj.Math", "sfloAssemble"},
 
-	{FOAM_BVal_DFlo0,   GJ_LitFloat, 0,"0.0f"},
-	{FOAM_BVal_DFlo1,   GJ_LitFloat, 0,"0.0f"},
-	{FOAM_BVal_DFloMin, GJ_NegConst, 0, "Double", "MAX_VALUE"},
+	{FOAM_BVal_DFlo0,   GJ_LitFloat, 0,"0.0"},
+	{FOAM_BVal_DFlo1,   GJ_LitFloat, 0,"1.0"},
+	{FOAM_BVal_DFloMin, GJ_Const,    0, "Double", "MIN_NORMAL"},
 	{FOAM_BVal_DFloMax, GJ_Const,     0, "Double", "MAX_VALUE"},
-	{FOAM_BVal_DFloEpsilon, GJ_Const, 0, "Double",  "MIN_VALUE"},
+	{FOAM_BVal_DFloEpsilon, GJ_LitFloat, 0, "2.220446049250313E-16"},
 	{FOAM_BVal_DFloIsZero,   GJ_Op, JCO_OP_Equals, "0.0"},
 	{FOAM_BVal_DFloIsNeg,    GJ_Op, JCO_OP_LT,     "0.0"},
 	{FOAM_BVal_DFloIsPos,    GJ_Op, JCO_OP_GT,     "0.0"},
@@ -4679,7 +4679,7 @@ struct gjBVal_info gjBValInfoTable[] = {
 
 	{FOAM_BVal_SInt0,        GJ_LitInt,  0,"0" },		      
 	{FOAM_BVal_SInt1,        GJ_LitInt,  0,"1" },		      
-	{FOAM_BVal_SIntMin,      GJ_LitInt,  0,"0"},		      
+	{FOAM_BVal_SIntMin,      GJ_Const,       0,"Integer", "MIN_VALUE"},		      
 	{FOAM_BVal_SIntMax,      GJ_Const,       0,"Integer", "MAX_VALUE"},
 
 	{FOAM_BVal_SIntIsZero,   GJ_Op, JCO_OP_Equals, "0"},
@@ -4715,7 +4715,7 @@ struct gjBVal_info gjBValInfoTable[] = {
 	{FOAM_BVal_SIntShiftDn,  GJ_Op,       JCO_OP_ShiftDn},
 	{FOAM_BVal_SIntBit,      GJ_Apply,   0,"foamj.Math",      "bit"},
 
-	{FOAM_BVal_SIntNot,      GJ_Op,     JCO_OP_XOr, "0"},
+	{FOAM_BVal_SIntNot,      GJ_Op,     JCO_OP_XOr, "-1"},
 	{FOAM_BVal_SIntAnd,      GJ_Op,     JCO_OP_And},
 	{FOAM_BVal_SIntOr,       GJ_Op,     JCO_OP_Or},
 	{FOAM_BVal_SIntXOr,      GJ_Op,     JCO_OP_XOr},
@@ -4753,7 +4753,7 @@ struct gjBVal_info gjBValInfoTable[] = {
 	{FOAM_BVal_BIntSIPower,  GJ_Apply, 0,   "foamj.Math",   "sIPower"},
 	{FOAM_BVal_BIntBIPower,  GJ_Apply, 0,   "foamj.Math",   "bIPower"},
 	{FOAM_BVal_BIntPowerMod, GJ_Apply, 0,   "foamj.Math",   "powerMod"},
-	{FOAM_BVal_BIntLength,   GJ_Meth, 0,   "bitCount"},
+	{FOAM_BVal_BIntLength,   GJ_Meth, 0,   "bitLength"},
 	{FOAM_BVal_BIntShiftUp,  GJ_Apply, 0,   "foamj.Math",   "shiftUp"},
 	{FOAM_BVal_BIntShiftDn,  GJ_Apply, 0,   "foamj.Math",   "shiftDn"},
 	{FOAM_BVal_BIntShiftRem, GJ_Apply, 0,   "foamj.Math",   "shiftRem"},
